@@ -1,10 +1,12 @@
 #!/bin/sh
-# runs every registered quick (or $1=thorough) check on /repo, one after the other; summary in .cache/run_all.log
+# runs every registered quick (or $1=thorough) check on /repo, one after the other; summary in .cache/run_all[_$2].log
 cd /verif
 tier=${1:-quick}
-: > .cache/run_all.log
+tag=${2:+_$2}
+log=.cache/run_all$tag.log
+: > $log
 for p in C01 C02 C03 C04 C05 C06 C07 C08 C09 C10 C11 C12 C13 C14 C15 C16 C17 C18 C19 C20; do
-  ./check $p --tier $tier > .cache/run_all_$p.out 2>&1
-  echo "$p rc=$? $(grep -E '^\[C' .cache/run_all_$p.out | tail -1) $(grep -c VIOLATION .cache/run_all_$p.out) violation-lines" >> .cache/run_all.log
+  ./check $p --tier $tier > .cache/run_all${tag}_$p.out 2>&1
+  echo "$p rc=$? $(grep -E '^\[C' .cache/run_all${tag}_$p.out | tail -1) $(grep -c VIOLATION .cache/run_all${tag}_$p.out) violation-lines" >> $log
 done
-echo done >> .cache/run_all.log
+echo done >> $log
